@@ -15,13 +15,14 @@ var (
 	verifOnce sync.Once
 	verifMod  *ModuleCompress
 	verifCond condition.Condition
+	verifFalse condition.Condition
 )
 
 // VerifHandler runs compressHandler (C54) on one request/response pair.  cmd is the action of the single rule
-// of product "p" (hasRule=false: the product has rules but none for this request's product).
+// of product "p" (ruleMode: see below).
 // Returns the response's Content-Encoding, whether Content-Length is still present, which filter wraps the
 // body (0 none, 1 gzip, 2 brotli) and the (possibly wrapped) body reader.
-func VerifHandler(cmd string, hasRule bool, quality, flushSize int, ae string, hasAE bool, ce string, hasCE bool,
+func VerifHandler(cmd string, ruleMode int, quality, flushSize int, ae string, hasAE bool, ce string, hasCE bool,
 	hasCL bool, body io.ReadCloser) (string, bool, int, io.ReadCloser) {
 	verifOnce.Do(func() {
 		verifMod = NewModuleCompress()
@@ -30,12 +31,28 @@ func VerifHandler(cmd string, hasRule bool, quality, flushSize int, ae string, h
 			panic(err)
 		}
 		verifCond = c
+		if verifFalse, err = condition.Build("!default_t()"); err != nil {
+			panic(err)
+		}
 	})
 	m := verifMod
-	rules := compressRuleList{{Cond: verifCond, Action: Action{Cmd: cmd, Quality: quality, FlushSize: flushSize}}}
+	// ruleMode 0: only another product has rules; 1: one matching rule; 2: only a rule whose condition is false;
+	// 3: a non-matching rule (asking for the other codec) followed by the matching rule
+	real := compressRule{Cond: verifCond, Action: Action{Cmd: cmd, Quality: quality, FlushSize: flushSize}}
+	other := ActionGzip
+	if cmd == ActionGzip {
+		other = ActionBrotli
+	}
+	decoy := compressRule{Cond: verifFalse, Action: Action{Cmd: other, Quality: 1, FlushSize: 64}}
+	rules := compressRuleList{real}
 	product := "p"
-	if !hasRule {
+	switch ruleMode {
+	case 0:
 		product = "other"
+	case 2:
+		rules = compressRuleList{decoy}
+	case 3:
+		rules = compressRuleList{decoy, real}
 	}
 	m.ruleTable.Update(productRuleConf{Version: "v", Config: ProductRules{product: &rules}})
 	hreq := &bfe_http.Request{Method: "GET", Header: make(bfe_http.Header)}
